@@ -450,8 +450,67 @@ COOKIE_OPS = {
 CUR = {'r': None, 'obs': None}
 
 
+class RenderBoom(Exception):
+    """Injected: something the application plugged into body rendering raises."""
+
+
+class Unserializable:
+    pass
+
+
+class BoomHandler(falcon.media.BaseHandler):
+    """A media handler whose serialization fails (a plain exception or an HTTPError)."""
+
+    def __init__(self, http):
+        self.http = http
+
+    def serialize(self, media, content_type):
+        CUR['obs'].render_failed = True
+        if self.http:
+            raise falcon.HTTPServiceUnavailable(description='handler is down')
+        raise RenderBoom('media handler failed')
+
+    def deserialize(self, stream, content_type, content_length):
+        raise RenderBoom('not used')
+
+
+def boom_file_wrapper(filelike, blksize=8192):
+    CUR['obs'].render_failed = True
+    raise RenderBoom('wsgi.file_wrapper failed')
+
+
+# failures at body-rendering time (after the responder returned); 'file_wrapper_raises' is WSGI only,
+# 'render_body_raises' needs the response class that overrides render_body()
+RENDER_FAILS = ['unserializable', 'unsupported_ct', 'handler_raises', 'handler_raises_http', 'render_body_raises',
+                'file_wrapper_raises']
+
+
+def apply_render_fail(resp, r, obs):
+    cause = r['render_fail']
+    if cause == 'unserializable':
+        resp.media = {'x': Unserializable()}
+    elif cause == 'unsupported_ct':
+        resp.content_type = 'application/x-nope'
+        resp.media = {'a': 1}
+    elif cause == 'handler_raises':
+        resp.content_type = 'application/x-boom'
+        resp.media = {'a': 1}
+    elif cause == 'handler_raises_http':
+        resp.content_type = 'application/x-boom-http'
+        resp.media = {'a': 1}
+    elif cause == 'render_body_raises':
+        resp.media = {'a': 1}
+    elif cause == 'file_wrapper_raises':
+        log = Log('file')
+        obs.logs.append(log)
+        resp.stream = SyncFile(log, [b'never sent'], None)
+    else:
+        raise ValueError(cause)
+
+
 class Obs:
     def __init__(self):
+        self.render_failed = False
         self.logs = []
         self.filled = 0
         self.renders = 0
@@ -510,6 +569,8 @@ def fill(resp, r, obs):
             log = Log('sse')
             obs.sse_log = log
             resp.sse = make_emitter(r['sse'], log)
+    if r.get('render_fail'):
+        apply_render_fail(resp, r, obs)
 
 
 def _guarded_fill(resp):
@@ -578,6 +639,9 @@ class WSub(falcon.Response):
 class WSubRender(falcon.Response):
     def render_body(self):
         CUR['obs'].renders += 1
+        if CUR['r'].get('render_fail') == 'render_body_raises':
+            CUR['obs'].render_failed = True
+            raise RenderBoom('render_body failed')
         return super().render_body()
 
 
@@ -589,6 +653,9 @@ class ASubRender(falcon.asgi.Response):
     async def render_body(self):
         CUR['obs'].renders += 1
         await asyncio.sleep(0)
+        if CUR['r'].get('render_fail') == 'render_body_raises':
+            CUR['obs'].render_failed = True
+            raise RenderBoom('render_body failed')
         return await super().render_body()
 
 
@@ -613,6 +680,8 @@ def get_app(stack, rc, mt):
             app = falcon.asgi.App(middleware=[AMiddleware()], response_type=cls, **kw)
             app.add_route('/r', AResource())
             app.add_sink(a_sink, '/sink')
+        app.resp_options.media_handlers['application/x-boom'] = BoomHandler(False)
+        app.resp_options.media_handlers['application/x-boom-http'] = BoomHandler(True)
         _apps[key] = app
     return _apps[key]
 
@@ -671,17 +740,80 @@ def run_case(rec, r):
     try:
         if stack == 'wsgi':
             env = W.make_environ(r['method'], path, headers=hdrs, body=body, file_wrapper=bool(r.get('fw')))
+            if r.get('render_fail') == 'file_wrapper_raises':
+                env['wsgi.file_wrapper'] = boom_file_wrapper
             res = W.run_wsgi(app, env, fail_write_at=r.get('fail_at'), max_chunks=MAX_EVENTS)
         else:
             scope = A.make_scope(r['method'], path, headers=hdrs)
             res = A.run_asgi_http(app, scope, events=A.body_events(body), fail_send_at=r.get('fail_at'),
-                                  max_events=MAX_EVENTS)
+                                  max_events=MAX_EVENTS, disconnect_after_sends=r.get('disconnect_after'))
     finally:
         CUR['r'] = CUR['obs'] = None
     if obs.fill_exc is not None or obs.filled != 1:
         raise RuntimeError('harness: recipe not applied exactly once (%r, filled=%d): %r' % (obs.fill_exc, obs.filled, r))
-    judge(rec, r, res, obs)
+    if r.get('render_fail'):
+        judge_render_fail(rec, r, res, obs)
+    else:
+        judge(rec, r, res, obs)
     return res, obs
+
+
+def judge_render_fail(rec, r, res, obs):
+    """Rendering the body failed after the application had filled in the response.
+
+    Whatever falcon answers instead (the error body itself is C04's subject) must still be a protocol-valid,
+    length-consistent response: the statement's rules are evaluated on what the server received.
+    """
+    stack = r['stack']
+    wit = None
+
+    def bad(kind, **extra):
+        nonlocal wit
+        if wit is None:
+            wit = {'recipe': compact(r), 'got': summary(res, stack)}
+        w = dict(wit)
+        w.update(extra)
+        rec.violation(kind, w)
+
+    rec.count('mon.render_fail.protocol.' + stack)
+    for p in res.problems:
+        bad('protocol-' + stack, problem=p)
+    if res.exc is not None:
+        bad('app-raised', trace=''.join(traceback.format_exception(type(res.exc), res.exc, res.exc.__traceback__))[-1500:])
+        return
+    if stack == 'wsgi':
+        if len(res.start_calls) != 1:
+            bad('start-response-count', n=len(res.start_calls))
+    else:
+        starts = sum(1 for e in res.events if isinstance(e, dict) and e.get('type') == 'http.response.start')
+        if starts != 1:
+            bad('response-start-count', n=starts)
+        if res.outcome != 'done' or not res.complete:
+            bad('asgi-incomplete', outcome=res.outcome)
+    code = res.status
+    if code is None:
+        return
+    if r['method'] == 'HEAD' or code in M.BODILESS:
+        rec.count('mon.render_fail.bodiless_empty')
+        if res.body != b'':
+            bad('body-on-bodiless')
+    else:
+        # the answer is not streamed (the stream, if any, was never handed to the server)
+        rec.count('mon.render_fail.content_length_equals_body')
+        cls = res.header_values('content-length')
+        if cls != [str(len(res.body))]:
+            bad('content-length', got=cls, want=str(len(res.body)))
+    if code not in M.TYPELESS:
+        rec.count('mon.render_fail.content_type_present')
+        if not res.header_values('content-type'):
+            bad('content-type-missing')
+    for log in obs.logs:
+        if log.has_close and log.begun and log.closes != 1:
+            bad('stream-close-count', stream_kind=log.kind, closes=log.closes, reads=log.reads)
+    if obs.render_failed or code >= 400:
+        rec.count('render_fail.%s.%s.%s' % (stack, r['render_fail'], 'cl' if r.get('cl') else 'nocl'))
+    else:
+        rec.count('render_fail.not_triggered')
 
 
 def judge(rec, r, res, obs):
@@ -765,7 +897,11 @@ def judge(rec, r, res, obs):
             k = r['sse'].get('raise_at')
             if k is not None and k <= len(events):
                 events = events[:k]
-            if len(blocks) > len(events) or (not faulted and len(blocks) != len(events)):
+            gone = r.get('disconnect_after') is not None and getattr(res, 'client_disconnected_at', None) is not None
+            if gone and not faulted:
+                # the emitter may legitimately be abandoned once the client is gone; termination is still owed
+                rec.count('sse.disconnect.truncated' if len(blocks) < len(events) else 'sse.disconnect.full')
+            if len(blocks) > len(events) or (not faulted and not gone and len(blocks) != len(events)):
                 bad('sse-event-count', got=len(blocks), want=len(events))
             else:
                 for b, ev in zip(blocks, events):
@@ -950,7 +1086,10 @@ def note_coverage(rec, r, res, obs):
 
 def do(rec, r, nontrivial=True):
     res, obs = run_case(rec, r)
-    note_coverage(rec, r, res, obs)
+    if not r.get('render_fail'):
+        note_coverage(rec, r, res, obs)
+    if r.get('disconnect_after') is not None:
+        rec.count('asgi.disconnect_after')
     rec.case(_key(r) if nontrivial else None)
     return res
 
@@ -1107,6 +1246,44 @@ def fault_cases(stack, big):
                         yield mk(0, 2)
 
 
+def render_fail_cases(stack):
+    """Every render-time failure cause x preset Content-Length x response class x method x way of filling in."""
+    n = 0
+    for cause in RENDER_FAILS:
+        if cause == 'file_wrapper_raises' and stack != 'wsgi':
+            continue
+        for rc in RESP_CLASSES:
+            if cause == 'render_body_raises' and rc != 'sub_render':
+                continue
+            for cl in (None, ['prop', 42], ['header', '7']):
+                for method in ('GET', 'POST', 'HEAD'):
+                    for status in (['int', 200], ['int', 201], ['enum', 204], ['line', '404 Not Found']):
+                        n += 1
+                        r = {'stack': stack, 'method': method, 'status': status, 'text': None, 'data': None,
+                             'media': ['unset'], 'stream': None, 'sse': None, 'ct': None, 'cl': cl, 'rc': rc,
+                             'render_fail': cause, 'via': ('responder', 'mw', 'sink')[n % 3]}
+                        if n % 4 == 0:
+                            r['headers'] = ['set_ascii', 'append_first_int']
+                            r['cookies'] = ['basic']
+                        if n % 5 == 0 and cause in ('unserializable', 'render_body_raises'):
+                            r['mt'] = 'text/html; charset=utf-8'     # then: no handler for the default type
+                        yield r
+
+
+def sse_disconnect_cases():
+    """The client goes away after k sent events (k = 0 .. n + 2) while the emitter is still producing."""
+    evs = [{'text': 'e0'}, None, {'json': {'n': 2}, 'event': 'tick'}, {'data': b'e3', 'event_id': '3'}, {'text': 'e4'}]
+    for kind in ('agen', 'aiter'):
+        for n in (0, 1, 2, 5):
+            for yieldy in (True, False):
+                for k in range(0, n + 3):
+                    for method, status in (('GET', ['int', 200]), ('POST', ['line', '200 OK']), ('HEAD', ['int', 200])):
+                        yield {'stack': 'asgi', 'method': method, 'status': status, 'text': None, 'data': None,
+                               'media': ['unset'], 'stream': None, 'ct': None, 'cl': None,
+                               'sse': {'kind': kind, 'events': evs[:n], 'raise_at': None, 'yieldy': yieldy},
+                               'disconnect_after': k, 'rc': RESP_CLASSES[k % 3]}
+
+
 def sse_fault_cases():
     evs = [{'data': b'raw \xc3\xa9', 'text': 'not me', 'json': {'nor': 'me'}}, {'text': '', 'json': 1}, None,
            {'comment': 'keep-alive'},
@@ -1242,6 +1419,17 @@ def gen_recipe(rng):
         r['order'] = order
     if rng.random() < 0.3:
         r['fail_at'] = rng.randint(0, 5)
+    if stack == 'asgi' and rng.random() < 0.2:
+        r['disconnect_after'] = rng.randint(0, 6)
+    if rng.random() < 0.06:
+        # render-time failure: nothing of higher precedence than media may be set, no fault injection on top
+        cause = rng.choice([c for c in RENDER_FAILS if c != 'file_wrapper_raises' or stack == 'wsgi'])
+        r.update(text=None, data=None, media=['unset'], stream=None, sse=None, ct=None, render_fail=cause)
+        r.pop('fail_at', None)
+        r.pop('order', None)
+        if cause == 'render_body_raises':
+            r['rc'] = 'sub_render'
+        return r
     if r['via'] == 'responder' and r['mt'] is None and rng.random() < 0.2 and (
             r['ct'] is None or r['ct'][0] in ('none', 'set_then_none') or r['ct'][1] in JSON_CTS):
         r['prerender'] = [rng.choice([{'stale': True}, 'stale', [0]])]
@@ -1265,11 +1453,15 @@ def run(rec):
         '(int, float, bool, str subclass, object with __str__) are accepted input and must arrive as str(value)',
         'bodiless statuses are exactly 100/101/204/304 as the statement lists them (102/103/205 not generated)',
         'a send failure on the response-start event precedes streaming: no close() demand (stream never begun)',
+        'render-time failures (unserializable media, unsupported type, raising handler / render_body / file_wrapper): '
+        'only protocol validity and length consistency of the answer are demanded, not a non-empty error body (C04)',
+        'after http.disconnect an SSE emitter may be abandoned early; a terminating body event is still owed',
     ]
     quick = rec.tier == 'quick'
     idx = 0
     for stack in ('wsgi', 'asgi'):
-        for gen in (grid_cases(stack), falsy_cases(stack), decor_cases(stack), fault_cases(stack, big=not quick)):
+        for gen in (grid_cases(stack), falsy_cases(stack), decor_cases(stack), fault_cases(stack, big=not quick),
+                    render_fail_cases(stack)):
             for r in gen:
                 idx += 1
                 if idx % rec.nshards != rec.shard:
@@ -1277,7 +1469,7 @@ def run(rec):
                 do(rec, r)
                 if idx % 1499 == 0:
                     rec.sample({'recipe': r})
-    for r in sse_fault_cases():
+    for r in itertools.chain(sse_fault_cases(), sse_disconnect_cases()):
         idx += 1
         if idx % rec.nshards != rec.shard:
             continue
@@ -1330,6 +1522,16 @@ def run(rec):
         rec.floor('status_kind.' + sk, 50)
     rec.floor('random.cases', 200)
     rec.floor('prerender', 20)
+    for stack in ('wsgi', 'asgi'):
+        for cause in RENDER_FAILS:
+            if cause == 'file_wrapper_raises' and stack != 'wsgi':
+                continue
+            for cl in ('cl', 'nocl'):
+                rec.floor('render_fail.%s.%s.%s' % (stack, cause, cl), 4)
+    rec.floor('mon.render_fail.content_length_equals_body', 100)
+    rec.floor('sse.disconnect.truncated', 10)
+    rec.floor('sse.disconnect.full', 10)
+    rec.floor('asgi.disconnect_after', 50)
     rec.floor('mon.nonstr_header_value_as_str', 100)
 
 
